@@ -69,6 +69,13 @@ impl Automerge {
     #[verifier::external_body]
     pub fn hydrate_obj(&self, obj: &ExId, clock: Option<Clock>) -> (r: Result<HydrateValue, AutomergeError>)
         ensures r == self.spec_hydrate(*obj, clock) { unimplemented!() }
+    /// scoped reads (abstract functions of document, object and clock)
+    pub uninterp spec fn spec_length(&self, obj: ExId, clock: Option<Clock>) -> usize;
+    #[verifier::external_body]
+    pub fn length_for(&self, obj: &ExId, clock: Option<Clock>) -> (r: usize) ensures r == self.spec_length(*obj, clock) { unimplemented!() }
+    pub uninterp spec fn spec_text(&self, obj: ExId, clock: Option<Clock>) -> Result<String, AutomergeError>;
+    #[verifier::external_body]
+    pub fn text_for(&self, obj: &ExId, clock: Option<Clock>) -> (r: Result<String, AutomergeError>) ensures r == self.spec_text(*obj, clock) { unimplemented!() }
     #[verifier::external_body]
     pub fn ops(&self) -> (r: &OpSet) ensures *r == self.ops { unimplemented!() }
     #[verifier::external_body]
@@ -425,6 +432,42 @@ impl AutoCommit {
 //@   spec
         // C29 (D30 lived here): hydrate is a read like any other -- it goes through the scope
         ensures r == self.doc.spec_hydrate(*obj, self.scope_of(heads)),
+//@ end
+
+//@ fn rust/automerge/src/autocommit.rs | impl ReadDoc for AutoCommit | length
+//@   ret r
+//@   subst /<O: AsRef<ExId>>/ => <>
+//@   subst /obj: O/ => obj: &ExId
+//@   subst /obj\.as_ref\(\)/ => obj
+//@   spec
+        ensures r == self.doc.spec_length(*obj, self.scope_of(None::<&[ChangeHash]>)),
+//@ end
+
+//@ fn rust/automerge/src/autocommit.rs | impl ReadDoc for AutoCommit | length_at
+//@   ret r
+//@   subst /<O: AsRef<ExId>>/ => <>
+//@   subst /obj: O/ => obj: &ExId
+//@   subst /obj\.as_ref\(\)/ => obj
+//@   spec
+        ensures r == self.doc.spec_length(*obj, self.scope_of(Some(heads))),
+//@ end
+
+//@ fn rust/automerge/src/autocommit.rs | impl ReadDoc for AutoCommit | text
+//@   ret r
+//@   subst /<O: AsRef<ExId>>/ => <>
+//@   subst /obj: O/ => obj: &ExId
+//@   subst /obj\.as_ref\(\)/ => obj
+//@   spec
+        ensures r == self.doc.spec_text(*obj, self.scope_of(None::<&[ChangeHash]>)),
+//@ end
+
+//@ fn rust/automerge/src/autocommit.rs | impl ReadDoc for AutoCommit | text_at
+//@   ret r
+//@   subst /<O: AsRef<ExId>>/ => <>
+//@   subst /obj: O/ => obj: &ExId
+//@   subst /obj\.as_ref\(\)/ => obj
+//@   spec
+        ensures r == self.doc.spec_text(*obj, self.scope_of(Some(heads))),
 //@ end
 
 //@ fn rust/automerge/src/autocommit.rs | impl AutoCommit | isolate
